@@ -1020,8 +1020,20 @@ fn main_check(ctx: &Ctx) -> Outcome {
                 toks.push(Tok { label: format!("{pl}a<0x{c:02x}>b LF <0x{c:02x}>c"), bytes, text: true });
             }
         }
+        // ... and characters at the edges of Unicode: the last code point of each UTF-8 length, noncharacters of the
+        // supplementary planes (valid XML), private use, line / paragraph separators, zero-width and bidi controls, BOM
+        for c in [
+            '\u{7f}', '\u{80}', '\u{a0}', '\u{ad}', '\u{7ff}', '\u{800}', '\u{2028}', '\u{2029}', '\u{200b}', '\u{200d}', '\u{200e}', '\u{202e}', '\u{2060}', '\u{feff}',
+            '\u{d7ff}', '\u{e000}', '\u{f8ff}', '\u{fdd0}', '\u{fffd}', '\u{10000}', '\u{1fffe}', '\u{1ffff}', '\u{2fffe}', '\u{e0001}', '\u{f0000}', '\u{10fffe}', '\u{10ffff}',
+        ] {
+            for (pl, prefix) in [("", &b""[..]), ("CSI1;31;44m", b"\x1b[1;31;44m")] {
+                let mut bytes = prefix.to_vec();
+                bytes.extend(format!("a{c}b\n{c}c{c}").as_bytes());
+                toks.push(Tok { label: format!("{pl}a<U+{:04X}>b LF <U+{:04X}>c<U+{:04X}>", c as u32, c as u32, c as u32), bytes, text: true });
+            }
+        }
         let total = sweep(&toks, 1, "ascii", false);
-        out.push_part(json!({"sweep":"every ASCII character mid-line and at line start, unstyled and styled","tokens":toks.len(),"max_tokens":1,"token_strings":total,"configurations":cfgs.len()}));
+        out.push_part(json!({"sweep":"every ASCII character and 27 characters at the edges of Unicode, mid-line and at line start, unstyled and styled","tokens":toks.len(),"max_tokens":1,"token_strings":total,"configurations":cfgs.len()}));
     }
     // every sequence made of two attribute groups (e.g. two truecolor groups in one sequence), followed by a character
     if multi_any {
